@@ -1,8 +1,11 @@
 #!/bin/sh
-# Builds the conformance harness offline against /repo's current working tree (hooks on).
+# Builds the conformance harness crates offline against /repo's current working tree (hooks on).
 set -e
-cd "$(dirname "$0")/harness"
-[ -f Cargo.lock ] || cp /repo/Cargo.lock Cargo.lock
-CARGO_NET_OFFLINE=true cargo build --offline -q
-mkdir -p ../out ../evidence
-echo "harness built"
+here="$(cd "$(dirname "$0")" && pwd)"
+for d in "$here"/harness "$here"/h_*; do
+  [ -f "$d/Cargo.toml" ] || continue
+  [ -f "$d/Cargo.lock" ] || cp /repo/Cargo.lock "$d/Cargo.lock"
+  (cd "$d" && CARGO_NET_OFFLINE=true cargo build --offline -q)
+  echo "built $d"
+done
+mkdir -p "$here/out" "$here/evidence"
